@@ -96,8 +96,11 @@ class S(diff.DiffOperator):
             # first add new state (if max_nstate not reached)
             sm.resize(min(sm.nstate + abs(shift), nmax))
 
-            # shift states (inplace)
-            sm.states = shift1d(sm.states, shift, inplace=True)
+            # shift states (inplace; a broadcast view of the stored states is materialised first)
+            states = sm.states
+            if not states.flags.writeable:
+                states = states.copy()
+            sm.states = shift1d(states, shift, inplace=True)
 
         elif method == "shift-nd":
             # int nd-shift
